@@ -20,7 +20,7 @@ add("C02", "model_checking", "final-state consistency (Props_Sched!C02_Local) is
 add("C03", "model_checking", "execution-count bounds, retry accounting, no-ghost-success and dry-run clauses: invariants of the model, monitors on real traces; model counter-examples under stop are replayed as leads", SCHED_NOTE, SCHED_TECH, "sched", "5/C03")
 add("C04", "model_checking", "run outcome and handler sequence: invariants of the model (all handler subsets), monitors on real traces incl. stop at arbitrary gates", SCHED_NOTE, SCHED_TECH, "sched", "5/C04")
 add("C05", "model_checking", "no start after stop / signal reaches live processes / kill escalation / timeout: invariants and a liveness property of the model, monitors on real traces with obeying and ignoring scripted processes; plus four runs of the real binary stopped with the real stop command (shell step obeying SIGTERM / ignoring it / wanting signalOnStop SIGINT / repeating), judged by AgentLifeObserve's C05 clauses", SCHED_NOTE, SCHED_TECH, "sched", "5/C05")
-add("C15", "model_checking", "high-water mark of executing steps <= maxActiveRuns as model invariant plus liveness (run ends under every limit) and as monitor at every ExecBegin of real traces", SCHED_NOTE, SCHED_TECH, "sched", "5/C15")
+add("C15", "model_checking", "high-water mark of executing steps <= maxActiveRuns as model invariant plus liveness (run ends under every limit) and as monitor at every ExecBegin of real traces; incl. repeating steps that go on after a failed iteration (config family RepeatLimit / generator family replimit)", SCHED_NOTE, SCHED_TECH, "sched", "5/C15")
 
 REC_NOTE = "trusted: TLC evaluating the declarative operator, the harness driver that calls the real functions and writes the records"
 add("C14", "model_checking", "Admission.tla models setup/findStep/Kahn's algorithm and TLC proves verdict = declarative Admissible for every graph on N steps (quick 3, thorough 4) incl. self loops and a dangling entry; "
@@ -74,7 +74,9 @@ add("C11", "model_checking", "Params.tla transcribes the parameter pipeline (ren
 
 LIFE_NOTE = "trusted: the ptrace supervisor, TLC, the real client used for the queries; one 2-step DAG; wall-clock clauses are not claimed"
 add("C08", "fault_enumeration", "AgentLife.tla models the start-up / shutdown order of agent.Run with a crash anywhere and TLC checks 'a run cut short is reported neither running nor succeeded' and 'the latest-status query never fails'; "
-    "the real binary is SIGKILLed at every relevant system call of start-up, execution and shutdown (quick: every 3rd), then the real client is asked for the latest status and the DAG is started again with the real binary; TLC judges every record",
+    "the real binary is SIGKILLed at every relevant system call of start-up, execution and shutdown (quick: every 3rd), then the real client is asked for the latest status and the DAG is started again with the real binary; TLC judges every record; "
+    "second stage: what a finished run says about its steps under stop / timeout interleavings (no step left running, no failed step labelled finished): invariant C08_FinalLabels of StepSched "
+    "and SchedObserve's C08 clauses on gate-driven and free runs of the real scheduler (families stop, outcome, timeout, replimit)",
     LIFE_NOTE, "TLA+ life-cycle model (TLC) + ptrace kill-point enumeration on the real binary judged by TLC", "agentlife", "5/C08")
 add("C16", "model_checking", "AgentLife.tla with two starters: TLC proves mutual exclusion and 'a refused start records nothing' for behaviours without the probe/bind window race (recorded as a history flag) ; "
     "the first `start` of the real binary is held at its k-th system call while a second start of the same file runs to completion, for every call in the probe..bind window and a sample elsewhere; TLC judges who executed, what was recorded and whether the first run was disturbed",
@@ -100,7 +102,7 @@ def main():
         },
         "engines": [
             {"name": "sched", "path": "harness/rig/sched.go + spec/StepSched.tla + spec/SchedObserve.tla + spec/StepSchedTrace.tla",
-             "serves_properties": ["C01", "C02", "C03", "C04", "C05", "C10", "C15"],
+             "serves_properties": ["C01", "C02", "C03", "C04", "C05", "C08", "C10", "C15"],
              "kind_free_text": "gate controller + scripted executor around the real scheduler.Schedule/Signal; TLC model checking, behaviour export, trace validation"},
             {"name": "auth", "path": "harness/rig/auth.go + spec/Auth.tla + spec/AuthObserve.tla", "serves_properties": ["C17"],
              "kind_free_text": "request renderer around the real middleware chain (httptest); records judged by TLC"},
